@@ -454,11 +454,11 @@ func c13Gen(seed int64, idx int) *c13Chain {
 		if defectHere && inject == "wrong-kind" {
 			switch ch.kind {
 			case "int", "uint", "decimal64":
-				L.wrongKind = core.Pick(r, []*yang.Stmt{yang.S("length", "1..4"), yang.S("pattern", "[0-9]+")})
+				L.wrongKind = core.Pick(r, []*yang.Stmt{yang.S("length", "1..4"), yang.S("pattern", "[0-9]+"), yang.S("base", "idb"), yang.S("enum", "one"), yang.S("path", "../x")})
 			case "string":
-				L.wrongKind = yang.S("range", "1..4")
+				L.wrongKind = core.Pick(r, []*yang.Stmt{yang.S("range", "1..4"), yang.S("base", "idb"), yang.S("fraction-digits", "2"), yang.S("bit", "b0")})
 			default:
-				L.wrongKind = core.Pick(r, []*yang.Stmt{yang.S("range", "1..4"), yang.S("length", "1..4"), yang.S("pattern", "a*")})
+				L.wrongKind = core.Pick(r, []*yang.Stmt{yang.S("range", "1..4"), yang.S("length", "1..4"), yang.S("pattern", "a*"), yang.S("base", "idb"), yang.S("require-instance", "true")})
 			}
 			ch.defect = "wrong-kind"
 		}
@@ -651,7 +651,7 @@ func c13Gen(seed int64, idx int) *c13Chain {
 }
 
 func (ch *c13Chain) text() string {
-	m := yang.S("module", "m", yang.S("namespace", "urn:m"), yang.S("prefix", "m"))
+	m := yang.S("module", "m", yang.S("namespace", "urn:m"), yang.S("prefix", "m"), yang.S("identity", "idb"))
 	prev := ch.builtin
 	for i, L := range ch.levels {
 		t := yang.S("type", prev)
